@@ -2,6 +2,7 @@ package profile
 
 import (
 	"fmt"
+	"github.com/aml-org/amf-custom-validator/internal/misc"
 	"github.com/aml-org/amf-custom-validator/internal/parser/path"
 	"strings"
 )
@@ -30,10 +31,11 @@ func (r ScalarSetRule) Negate() Rule {
 func (r ScalarSetRule) JSONValues() string {
 	var acc []string
 	for _, v := range r.Argument {
-		acc = append(acc, fmt.Sprintf("\\\"%s\\\"", v))
+		acc = append(acc, fmt.Sprintf("\"%s\"", misc.RegoStringContent(v)))
 	}
 
-	return fmt.Sprintf("[%s]", strings.Join(acc, ","))
+	// the list is pasted inside a string of the generated code
+	return misc.RegoStringContent(fmt.Sprintf("[%s]", strings.Join(acc, ",")))
 }
 
 func (r ScalarSetRule) String() string {
